@@ -89,6 +89,26 @@ CHECKS = {
                       "first matching rule dictates; uninterpretable rule data is refused.",
         "level_note": _TRUST,
     },
+    "C01": {
+        "pkgs": ["./pkg/netceptor", "./pkg/tickrunner"],
+        "bounds": {
+            "quick": "every directed graph over 3 nodes (6 edges present/absent, arbitrary real costs in (0,1000]), unwind 40; update->knowledge->table "
+                     "pipeline over {A,B,C} with arbitrary costs; removal of one of two connections over every 3-node graph; one idle-monitor pass "
+                     "with arbitrary reception times; tick runner with 1-2 requests of arbitrary delay 0..1h",
+            "thorough": "as quick with every directed graph over 4 nodes (12 edges) and 1-3 tick requests",
+        },
+        "no_native": ["Verif_C01_tick_coalesce"],
+        "assumptions": ["link costs are positive reals <= 1000 (float rounding not modelled: costs encoded as reals)",
+                        "every node that appears as a neighbour has its own entry in the knowledge (its own update has arrived)"],
+        "outside": ["convergence of the DISTRIBUTED protocol (that every node's knowledge becomes the real topology within k periods under every "
+                    "delay and interleaving) - liveness over unbounded histories, not decided", "graphs over more than 4 nodes", "timing constants",
+                    "tick runner timing is checked on the durations the code passes to time.After, not on a real clock"],
+        "level_text": "Bounded symbolic execution of the real updateRoutingTable (with the real go-priority-queue and container/heap) against an "
+                      "independent Bellman-Ford reference for every graph within the bound: table = exactly the reachable nodes, reported cost = "
+                      "least cost, next hop = direct neighbour on a least-cost path (hence loop-free), termination; plus the bookkeeping steps "
+                      "(update handling, connection removal, idle monitor, tick runner) that keep knowledge and table current.",
+        "level_note": _TRUST,
+    },
     "C10": {
         "pkgs": ["./pkg/netceptor"],
         "bounds": "step lemma for all 256 budgets, arbitrary routing table (no route / via B / via C / via unconnected X) for source and "
